@@ -152,6 +152,9 @@ func epNotify(c *RunCtx, cfg notifyCfg) *Result {
 				if barrier != "" {
 					e.Fail("C09", "pending-not-resumed", cfg.Mode, det)
 				}
+				if cfg.QK == QDist || cfg.QK == QDistPrio {
+					e.Fail("C13", "announced-not-processed", cfg.Mode, det)
+				}
 				break
 			}
 		}
@@ -175,13 +178,18 @@ func epNotify(c *RunCtx, cfg notifyCfg) *Result {
 
 var notifyFuncs = []string{"Resume", "Restart", "TunePool", "start", "notifyToPullNextJobs", "goEventLoop", "processNextJob", "initPoolNode", "freePoolNode", "queue.Add", "Queue.Add", "Enqueue", "closeChannels", "handleQueueSubscription", "releaseWaiters", "Manager.Len", "Queue.Len"}
 
-func notifyPrograms(c *RunCtx, nq, nt int) {
+func notifyPrograms(c *RunCtx, nq, nt int) { notifyProgramsK(c, nq, nt, false) }
+
+func notifyProgramsK(c *RunCtx, nq, nt int, distOnly bool) {
 	modes := []string{"resume", "restart", "tune-up", "drain", "resume-after-wait"}
 	for v := 0; v < c.Q(nq, nt); v++ {
 		c.Program(fmt.Sprintf("wakeup/%d", v), func(p *Prog) {
 			r := p.Rng
 			cfg := notifyCfg{WK: Pick(r, WPlain, WErr, WResult), QK: Pick(r, QFifo, QFifo, QPrio), Conc: Pick(r, 1, 1, 2, 3), Mode: modes[v%len(modes)], Pre: r.Intn(3), Racing: 1 + r.Intn(3), Prods: Pick(r, 1, 1, 2)}
-			if r.Chance(25) {
+			if distOnly {
+				cfg.WK = WPlain
+				cfg.QK = Pick(r, QDist, QDistPrio)
+			} else if r.Chance(25) {
 				cfg.WK = WPlain
 				cfg.QK = Pick(r, QPers, QPersPrio, QDist, QDistPrio)
 			}
